@@ -54,6 +54,8 @@ def run(chk: Check, ctx: Any) -> None:
     chk.rule("C08-R2", "positions passed to the source map are <ctx>.start.line - 1 and <ctx>.start.column of the handler's own context (stop.* for end positions)")
     chk.rule("C08-R3", "return address = op counter + #(non-label blueprint ops) + 1 (own and nested pushes), pushed before numbers are drawn; one number per non-label element; push/pop paired")
     chk.rule("C08-R4", "macro file paths are relative to the originally compiled file and belong to the defining file; None entries are corrected by the relaying macro; one builder per macro")
+    chk.rule("C08-R6", "direct ops: whole compiler interpreted on sample programs in four layouts; every emitted op has an entry at the line and column where its "
+                       "statement, condition, switch or case header begins (positions from the grammar's own parse tree)")
     chk.rule("C08-R5", "ArgList builds the position mark from the same argument object it returns")
 
     # ------------------------------------------------------------------ R1
@@ -141,6 +143,8 @@ def run(chk: Check, ctx: Any) -> None:
 
     # ------------------------------------------------------------------ R4
     _files(chk, ctx)
+    from .positions import direct_positions_rule
+    direct_positions_rule(chk, ctx, "C08-R6")
 
     # ------------------------------------------------------------------ R5
     al = repo.func(f"{CH}.operations.arg_list:ArgListCompileHandler.collect")
